@@ -49,6 +49,16 @@ type Model = BTreeMap<u16, (u32, i32)>; // id -> (stored tag, priority)
 struct Fail { props: String, what: String }
 macro_rules! ck { ($c:expr, $p:expr, $($a:tt)*) => { if !($c) { return Err(Fail { props: String::from($p), what: format!($($a)*) }); } } }
 
+/// the queue that `append` emptied is an ordinary empty queue: a few pushes, one removal, and pops in order (C04, C16)
+fn reuse_donor<T: Q>(o: &mut T) {
+    if o.len() != 0 { return; }
+    for j in 0..5u16 { o.push(It { id: 61000 + j, tag: 0, own: Box::new(0) }, (j as i32 * 7) % 5); }
+    let gone = o.remove(61001); assert!(gone.map(|x| x.0.id) == Some(61001), "the queue emptied by append misses an item pushed afterwards");
+    let mut last = i32::MAX; let mut n = 0;
+    while let Some((_, p)) = o.pop_hi() { assert!(p <= last, "the queue emptied by append, refilled, pops {} after {}", p, last); last = p; n += 1; }
+    assert!(n == 4 && o.len() == 0, "the queue emptied by append, refilled with 4 elements, popped {}", n);
+}
+
 trait Q: Clone {
     fn kind() -> &'static str;
     fn new() -> Self;
@@ -93,6 +103,7 @@ trait Q: Clone {
     /// write `tag` through peek_mut / peek_max_mut (and peek_min_mut): ids addressed, next to the ids peek / peek_max (peek_min) report
     fn peek_mut_tags(&mut self, tag: u32) -> Vec<(Option<u16>, Option<u16>)>;
     fn clone_from_q(&mut self, o: &Self);
+    fn reserve_n(&mut self, n: usize);
     fn append_roomy(&mut self, v: Vec<(It, i32)>, room: usize) -> (usize, usize, usize);
     /// comparison counts of single-element operations and bulk constructions on a queue of n elements
     fn cost_probe(n: usize) -> Result<(), String>;
@@ -115,7 +126,7 @@ macro_rules! common { ($T:ident) => {
     fn remove(&mut self, id: u16) -> Option<(It, i32)> { $T::remove(self, &It { id, tag: 9999, own: Box::new(0) }).map(|(i, p)| (i, p.0)) }
     fn retain_mut(&mut self, m: u16, d: i32) { $T::retain_mut(self, |i, p| { *p += d * (i.id as i32 % 3 - 1); i.id % m != 0 }) }
     fn extend_h(&mut self, v: Vec<(It, i32)>, lo: usize, hi: Option<usize>) { self.extend(Hinted { it: pr(v).into_iter(), lo, hi }) }
-    fn append_from(&mut self, v: Vec<(It, i32)>) -> (usize, usize, usize) { let mut o: Self = pr(v).into_iter().collect(); self.append(&mut o); (o.len(), o.iter().count(), o.iter().len()) }
+    fn append_from(&mut self, v: Vec<(It, i32)>) -> (usize, usize, usize) { let mut o: Self = pr(v).into_iter().collect(); self.append(&mut o); let left = (o.len(), o.iter().count(), o.iter().len()); reuse_donor(&mut o); left }
     fn clear(&mut self) { $T::clear(self) }
     fn drain_k(&mut self, k: usize, forget: bool) -> Vec<(It, i32)> {
         let mut d = self.drain(); let mut got = vec![]; for _ in 0..k { if let Some(x) = d.next() { got.push((x.0, (x.1).0)); } }
@@ -126,9 +137,10 @@ macro_rules! common { ($T:ident) => {
     fn roundtrip(&self) -> Result<Self, String> { let s = serde_json::to_string(self).map_err(|e| e.to_string())?; serde_json::from_str(&s).map_err(|e| e.to_string()) }
     fn same(&self, o: &Self) -> bool { self == o }
     fn clone_from_q(&mut self, o: &Self) { self.clone_from(o) }
+    fn reserve_n(&mut self, n: usize) { self.reserve(n) }
     fn retain_all(&mut self, mutable: bool) { if mutable { $T::retain_mut(self, |_, _| true) } else { $T::retain(self, |_, _| true) } }
     fn append_roomy(&mut self, v: Vec<(It, i32)>, room: usize) -> (usize, usize, usize) {
-        let mut o: Self = pr(v).into_iter().collect(); o.reserve(room); self.append(&mut o); (o.len(), o.iter().count(), o.iter().len()) }
+        let mut o: Self = pr(v).into_iter().collect(); o.reserve(room); self.append(&mut o); let left = (o.len(), o.iter().count(), o.iter().len()); reuse_donor(&mut o); left }
     fn cost_probe(n: usize) -> Result<(), String> {
         let lg = (usize::BITS - n.leading_zeros()) as u64;
         let single = 14 * lg + 24;                // a sift visits <= log2 n levels, <= 7 comparisons per two levels in the min-max heap
@@ -391,6 +403,23 @@ fn step<T: Q>(q: &mut T, m: &mut Model, r: &mut Rng, log: &mut Vec<String>) -> R
         21 => { log.push(format!("get_mut({}).tag = {}", id, tag)); if q.set_tag(id, tag) { m.get_mut(&id).unwrap().0 = tag; } else { ck!(!m.contains_key(&id), "C03", "get_mut misses a stored item"); } }
         22 => { log.push("clone / eq / sorted / serde / convert".into());
             let c = q.clone(); ck!(c.same(q), "C14", "clone is not equal to its source");
+            { // twins: two clones of one queue, one of them with reserved room, given the same calls, take the same decisions
+              // (also among equal priorities): neither capacity nor being a clone is observable
+                let top = m.values().map(|x| x.1).max().unwrap_or(0);
+                let k = 1 + r.below(6) as usize; let hinted = r.below(2) == 0;
+                let fresh = |k: usize| -> Vec<(It, i32)> { (0..k).map(|j| (It { id: 60000 + j as u16, tag: 0, own: Box::new(0) }, top + 1 - (j as i32 % 2))).collect() };
+                let mut a = q.clone(); let mut b = q.clone(); b.reserve_n(64);
+                if hinted { a.extend_h(fresh(k), k, Some(k)); b.extend_h(fresh(k), k, Some(k)); } else { for (i, p) in fresh(k) { a.push(i, p); } for (i, p) in fresh(k) { b.push(i, p); } }
+                let (ea, eb) = (a.extremes(), b.extremes());
+                let sa: Vec<u16> = a.sorted_desc().into_iter().map(|i| i.id).collect(); let sb: Vec<u16> = b.sorted_desc().into_iter().map(|i| i.id).collect();
+                ck!(sa == sb && ea == eb, "C14,C17", "two clones of one queue, the second with reserved room, both {} {} pairs (priorities {} and {}): emptied in the orders {:?} and {:?}",
+                    if hinted { "extended by" } else { "pushed" }, k, top + 1, top, sa, sb); }
+            if !m.is_empty() { // twins again: the same append into a roomy clone from a tight queue, and into a tight clone from a roomy queue
+                let keys: Vec<u16> = m.keys().copied().collect(); let mk = |keys: &Vec<u16>| -> Vec<(It, i32)> { keys.iter().enumerate().map(|(j, k)| (It { id: if j % 2 == 0 { *k } else { 62000 + j as u16 }, tag: 7, own: Box::new(0) }, 1000 + j as i32)).collect() };
+                let mut a = q.clone(); a.reserve_n(400); let mut b = q.clone();
+                a.append_roomy(mk(&keys), 0); b.append_roomy(mk(&keys), 200);
+                let mut pa = a.iter_pairs(); pa.sort(); let mut pb = b.iter_pairs(); pb.sort();
+                ck!(pa == pb, "C17,C14", "two clones of one queue that differ in capacity only, after append of the same {} pairs (other queue with 0 / 200 reserved room), hold {:?} and {:?}", keys.len(), pa, pb); }
             { let mut d = T::new(); for j in 0..r.below(12) as u16 { d.push(It { id: 200 + j, tag: 0, own: Box::new(0) }, j as i32); }
               d.clone_from_q(q); ck!(d.same(q) && q.same(&d), "C14", "a queue refreshed with clone_from is not equal to its source");
               observe(&d, m).and_then(|_| drain_check(d, m, true)).map_err(|f| Fail { props: "C14".into(), what: format!("after clone_from: {}", f.what) })?; }
